@@ -17,6 +17,9 @@ ASSUMPTIONS = [
     "interpreter resources are unbounded (no RecursionError / MemoryError)",
     "real-analysis facts about exp/ln/sin/cos/ipow/root are used as ground instances (pyvc/axioms.py); their statements are in spec/lemmas.lean",
     "structural induction over finite immutable trees: each recursive method is proved per concrete class against the same contract assumed for its children",
+    "symbolic-arity (G-mode) proofs: universally quantified facts are instantiated by hand at the index terms in play (sound, incomplete); big operators, filtered / partitioned / entry-removed lists are given their meaning by the instance schemas of pyvc/gmode.py, gexec.py (Lean counterparts in spec/lemmas.lean: ax_big*), and the ghost functions cnt / sigma / tau of a partition are the mathematical ones (their defining facts are stated, not derived); an undischarged symbolic-arity obligation is reported as 'no proof' (NOTE), never as a violation",
+    "helper contracts used inside symbolic-arity proofs (math_functions.multiply, utilities.list_without_entry_at, utilities.partition_by_predicate, the n-ary constructor) are each discharged against the helper's real body by a family of the same check",
+    "the give-up branch of Expression._fully_reduce (after REDUCTION_STEPS_BOUND = 1000 steps) sets _is_fully_reduced on a node that need not be rule-free; no history was found in which that is observable (the node is freshly rebuilt), and the flag-ownership rule F5 accepts _fully_reduce as a writer",
 ]
 
 
